@@ -14,6 +14,13 @@ Script ops (domain `eq`, trees in the jvtext format):
              a' compared with a' and b'.  Equality and copying must depend on the value
              reached only, never on how the tree got there.
 
+  Y a rules tags   deep copy through a caller-supplied json_c_shallow_copy_fn that wraps
+             json_c_shallow_copy_default and answers 1 / 2 / 2+application userdata / -1 as a
+             scripted predicate on the node (type, parent type, depth, index / key, call number,
+             every k-th call) says; some source nodes carry application userdata.  Whatever the
+             answers: a successful copy is equal, structurally complete, disjoint; a failing
+             one returns -1, leaves *dst NULL and leaks nothing.
+
 The direct oracle below is a Python statement of the property (denotation equality with
 Python's own float comparison, its own mutation semantics); it does not use the Coq model."""
 import re
@@ -30,7 +37,10 @@ RULE = ("pairs/triples of trees generated independently from small alphabets (so
         "repeated on the mutated trees; pairs of trees that first get a history of public mutators (value-preserving round "
         "trips that change only the memory representation — strings grown and set back, int64<->uint64 setters, members "
         "added and deleted incl. table resizes, put_idx gaps and del_idx —, start trees grown into the target value, random "
-        "walks) compared with directly built trees of the same / another value; a case is non-trivial when "
+        "walks) compared with directly built trees of the same / another value; deep copies through a caller-supplied "
+        "shallow-copy callback whose answers (1, 2, 2 + application userdata, -1 before / after creating the node) follow "
+        "scripted predicates on type, parent type, depth, index / key, call number, every k-th call, with source nodes "
+        "carrying application userdata that the callback does or does not take care of; a case is non-trivial when "
         "the implementation produced a well-formed observation for it; distinct = distinct script line")
 TRUSTED = ["Coq 8.16.1 kernel (coqc), no axioms (Print Assumptions: closed under the global context)",
            "extraction (ExtrOcamlBasic only) + ocaml/mdrv glue (drv_eq.ml, jvtext.ml)",
@@ -599,6 +609,150 @@ def gen_H(rng, out):
     out.append(("eq H %s %s %s %s" % (J.dump(a0), hist_text(ha), J.dump(b0), hist_text(hb)), {"kind": kind}))
 
 
+# ---- deep copy through a scripted callback -------------------------------------------
+def type_char(v):
+    if isinstance(v, list):
+        return "a"
+    if is_obj(v):
+        return "o"
+    if isinstance(v, bytes):
+        return "s"
+    if v is True or v is False:
+        return "b"
+    return {"i": "i", "u": "i", "d": "d"}[v[0]]
+
+
+def atom_match(a, c):
+    k, arg = a[0], a[1:]
+    if k == "*":
+        return True
+    if k == "t":
+        return arg == c["type"]
+    if k == "p":
+        return arg == c["ptype"]
+    if k == "d":
+        return c["depth"] == int(arg)
+    if k == "D":
+        return c["depth"] >= int(arg)
+    if k == "i":
+        return c["idx"] is not None and c["idx"] == int(arg)
+    if k == "k":
+        return c["key"] is not None and c["key"] == unhex(arg)
+    if k == "m":
+        kk, r = arg.split(",")
+        return int(kk) > 0 and c["n"] % int(kk) == int(r)
+    if k == "c":
+        return c["n"] == int(arg)
+    return False
+
+
+def cond_match(cond, c):
+    return all(a != "" and atom_match(a, c) for a in cond.split("&"))
+
+
+def cb_answer(rules, c):
+    if rules == "-":
+        return "1"
+    for r in rules.split(";"):
+        if len(r) >= 2 and r[-2] == "=" and cond_match(r[:-2], c):
+            return r[-1]
+    return "1"
+
+
+def cb_tagged(tags, c):
+    return tags != "-" and c["type"] != "d" and any(cond_match(t, c) for t in tags.split(";"))
+
+
+def cb_simulate(a, rules, tags):
+    """what the documented contract of json_object_deep_copy says for this callback:
+    (succeeds, number of callback calls, nodes of the copy carrying the application tag)"""
+    st = {"n": 0, "tags": 0}
+
+    def visit(x, ptype, depth, idx, key):
+        c = dict(n=st["n"], type=type_char(x), ptype=ptype, depth=depth, idx=idx, key=key)
+        st["n"] += 1
+        ans = cb_answer(rules, c)
+        if ans in "FG":
+            return False
+        if isinstance(x, list):
+            for i, ch in enumerate(x):
+                if ch is not None and not visit(ch, "a", depth + 1, i, None):
+                    return False
+        elif is_obj(x):
+            for k, ch in x[1]:
+                if ch is not None and not visit(ch, "o", depth + 1, None, k):
+                    return False
+        if ans not in "2T" and cb_tagged(tags, c):
+            return False          # the library cannot copy userdata of a serializer it does not know
+        if ans == "T" and c["type"] != "d":
+            st["tags"] += 1
+        return True
+    if a is None:
+        return False, 0, 0
+    ok = visit(a, "r", 0, None, None)
+    return ok, st["n"], st["tags"]
+
+
+def gen_cond(rng, a):
+    ks = [k for p in paths(a) if is_obj(get(a, p)) for k, _ in get(a, p)[1]]
+    atoms = ["to", "ta", "ts", "ti", "td", "tb", "po", "pa", "pr", "d0", "d1", "d2", "D1", "D2", "i0", "i1", "i2",
+             "m2,0", "m2,1", "m3,0", "m3,2", "m5,1", "c0", "c1", "c%d" % rng.randint(0, 12)]
+    if ks:
+        atoms += ["k" + J.hx(rng.choice(ks))] * 3
+    c = rng.choice(atoms)
+    if rng.random() < 0.25:
+        c += "&" + rng.choice(atoms)
+    return c
+
+
+def gen_Y(rng, out):
+    r = rng.random()
+    if r < 0.55:
+        a = add_texts(rng, small_tree(rng, 3, 4, nan=0.02), 0.5)
+    elif r < 0.9:
+        a = add_texts(rng, J.gen_tree(rng, depth=rng.choice([1, 2, 3, 4]), size=rng.choice([2, 4, 6]), nan=rng.random() < 0.1), 0.4)
+    else:
+        a = J.parse(rng.choice(COPY_EDGES))[0]
+    n = count_nodes(a)
+    r = rng.random()
+    tags = []
+    if r < 0.30:       # containers answered 2 / T, the rest anything that does not fail
+        rules = [rng.choice(["to=2", "ta=2", "to=T", "ta=T", "to=2;ta=T", "*=2", "*=T", "pr=2", "d0=T;d1=2", "D1&to=2", "D1&ta=T"])]
+        kind = "Y-containers-2"
+    elif r < 0.60:     # arbitrary never-failing answer pattern
+        rules = ["%s=%s" % (gen_cond(rng, a), rng.choice("12T2T")) for _ in range(rng.randint(1, 5))]
+        if rng.random() < 0.5:
+            rules.append("*=" + rng.choice("12T"))
+        kind = "Y-pattern"
+    elif r < 0.78:     # source nodes carry application userdata and the callback takes care of them
+        tags = [gen_cond(rng, a) for _ in range(rng.randint(1, 3))]
+        rules = ["%s=%s" % (t, rng.choice("T2T")) for t in tags]
+        rules += ["%s=%s" % (gen_cond(rng, a), rng.choice("12T")) for _ in range(rng.randint(0, 3))]
+        kind = "Y-tagged-handled"
+    elif r < 0.86:     # ... or does not (the library must refuse)
+        tags = [gen_cond(rng, a) for _ in range(rng.randint(1, 2))]
+        rules = ["%s=%s" % (gen_cond(rng, a), rng.choice("12T")) for _ in range(rng.randint(0, 3))]
+        kind = "Y-tagged-unhandled"
+    else:              # the callback fails at the n-th call / on some kind of node
+        rules = ["%s=%s" % (rng.choice(["c%d" % rng.randint(0, n), "c%d" % rng.randint(0, n), gen_cond(rng, a)]), rng.choice("FG"))]
+        rules += ["%s=%s" % (gen_cond(rng, a), rng.choice("12T")) for _ in range(rng.randint(0, 3))]
+        rng.shuffle(rules)
+        kind = "Y-fails"
+    out.append(("eq Y %s %s %s" % (J.dump(a), ";".join(rules) if rules else "-", ";".join(tags) if tags else "-"), {"kind": kind}))
+
+
+Y_EDGES = [
+    # the documented use: tagged containers carried over by the callback
+    ("{6e=s6e,63={61=i1,62=[t,n,d4004000000000000:322e3530],63={64=s65}},6c=[i1,{78=i-7},[u18446744073709551615]],74=n}", "k63=T;k6c=T", "k63;k6c"),
+    ("{61=[i1,i2]}", "to=2", "-"), ("{61=[i1,i2]}", "ta=2", "-"), ("[[i1],[]]", "*=2", "-"), ("[]", "*=2", "-"), ("{}", "*=T", "-"),
+    ("[d3ff0000000000000:312e30]", "td=2", "-"), ("[d3ff0000000000000:312e30]", "td=T", "-"), ("d3ff0000000000000:312e30", "*=2", "-"),
+    ("[d3ff0000000000000:312e30,d3ff0000000000000]", "i0=2", "-"), ("[u9223372036854775808,i-1,s00,t,n]", "m2,0=2", "-"),
+    ("{61={62={63=[s78]}}}", "D2=2", "-"), ("{61={62={63=[s78]}}}", "d1=T", "d1"), ("{61={62={63=[s78]}}}", "-", "d1"),
+    ("[i1,i2,i3]", "c0=F", "-"), ("[i1,i2,i3]", "c3=F", "-"), ("[i1,i2,i3]", "c3=G", "-"), ("[i1,[i2,[i3]]]", "c4=G", "-"), ("i1", "c0=G", "-"),
+    ("[i1,i2,i3]", "c4=F", "-"), ("{61=i1,62=[s78,s79]}", "ts=F;*=2", "-"), ("n", "*=2", "-"), ("[n,n]", "*=2", "-"), ("[s78]", "-", "ts"),
+]
+
+
 def gen(rng, tier):
     q = tier == "quick"
     out = []
@@ -675,6 +829,11 @@ def gen(rng, tier):
         out.append(("eq H %s %s %s %s" % (a0, ha, b0, hb), {"kind": "H-edge"}))
     for _ in range(700 if q else 25000):
         gen_H(rng, out)
+    # deep copy through a caller-supplied callback
+    for a, rules, tags in Y_EDGES:
+        out.append(("eq Y %s %s %s" % (a, rules, tags), {"kind": "Y-edge"}))
+    for _ in range(800 if q else 25000):
+        gen_Y(rng, out)
     return out
 
 
@@ -878,6 +1037,62 @@ def oracle(line, meta, impl):
         if parts[2] != "live=0":
             return ("leak", "allocations left: " + parts[2])
         return None
+    if op == "Y":
+        a = J.parse(f[2])[0]
+        rules, tags = f[3], f[4]
+        ok, calls, ntags = cb_simulate(a, rules, tags)
+        parts = impl.split(" | ")
+        h = parts[0].split(" ")
+        if len(parts) != 2 or len(h) < 5 or h[0] != "Y" or live_of(parts[1]) is None:
+            return ("malformed", "unexpected driver output: " + impl[:100])
+        ta = J.dump(canon(a))
+        what = "deep copy with callback [%s] (userdata on [%s])" % (rules[:60], tags[:40])
+        if not ok:
+            if h[1] == "0":
+                return ("cb-copy-should-fail", what + " succeeded although the callback failed / userdata could not be copied")
+            if len(h) != 5:
+                return ("malformed", "unexpected driver output: " + impl[:100])
+            if h[3] != "1":
+                return ("cb-failed-dst-not-null", what + " failed but left *dst non-NULL")
+            if h[2] != str(calls):
+                return ("cb-call-count", what + ": %s callback calls, expected %d (abort at the first failure)" % (h[2], calls))
+            if h[4] != ta:
+                return ("cb-copy-changed-source", what + " failed and changed the source: " + h[4][:100])
+            if parts[1] != "live=0":
+                return ("leak", "allocations left after a failed deep copy: " + parts[1])
+            return None
+        if h[1] != "0":
+            return ("copy-failed", what + " failed (rc=%s) although every answer was 1 or 2" % h[1])
+        if len(h) != 13:
+            return ("malformed", "unexpected driver output: " + impl[:100])
+        eqs = bits(h[4:6])
+        if eqs is None:
+            return ("malformed", "unexpected driver output: " + impl[:100])
+        if h[6] != ta:
+            return ("cb-copy-changed-source", what + " changed the source: " + h[6][:100])
+        if h[7] != ta:
+            return ("copy-dump-differs", what + ": the copy is not structurally the source: %s vs %s" % (h[7][:100], ta[:100]))
+        nf = not has_nan(a)
+        if nf and not all(eqs):
+            return ("copy-unequal", what + ": copy of a NaN-free tree does not compare equal (%s %s)" % (h[4], h[5]))
+        if not nf and any(eqs):
+            return ("copy-nan-equal", "a tree containing a NaN compares equal to a different node")
+        n = count_nodes(a)
+        if h[8] != str(n) or h[9] != str(n):
+            return ("copy-node-count", what + ": node counts source %s copy %s, expected %d" % (h[8], h[9], n))
+        if h[10] != "0":
+            return ("copy-shares-node", what + ": %s json_object node(s) reachable from both source and copy" % h[10])
+        if h[11] != "6":
+            return ("copy-text-differs", what + ": serialization differs under %d of 6 flag sets" % (6 - int(h[11])))
+        if h[2] != str(calls):
+            return ("cb-call-count", what + ": %s callback calls, expected one per node = %d" % (h[2], calls))
+        if h[3] != "0":
+            return ("malformed", "rc 0 but *dst NULL")
+        if h[12] != str(ntags):
+            return ("cb-userdata-lost", what + ": %s nodes of the copy carry the userdata the callback set, expected %d" % (h[12], ntags))
+        if parts[1] != "live=0":
+            return ("leak", "allocations left: " + parts[1])
+        return None
     return ("malformed", "unknown op")
 
 
@@ -897,7 +1112,10 @@ def shrink(ck, line, cls):
     op = f[1]
     if op == "H":
         return shrink_H(ck, line, cls)
-    ntrees = {"E": 2, "T": 3, "X": 1, "C": 1}[op]
+    if op == "Y":
+        line = shrink_rules(ck, line, cls)
+        f = line.split(" ")
+    ntrees = {"E": 2, "T": 3, "X": 1, "C": 1, "Y": 1}[op]
     trees = [J.parse(x)[0] for x in f[2:2 + ntrees]]
     tail = f[2 + ntrees:]
     budget = [70]
@@ -952,6 +1170,31 @@ def shrink(ck, line, cls):
                 progress = True
                 break
     return mk(trees)
+
+
+def shrink_rules(ck, line, cls):
+    """drop answer rules / tag conds of a Y case one at a time while the failure persists"""
+    f = line.split(" ")
+    budget = 25
+    for fi in (3, 4):
+        items = [] if f[fi] == "-" else f[fi].split(";")
+        i = 0
+        while i < len(items) and budget > 0:
+            g = list(f)
+            rest = items[:i] + items[i + 1:]
+            g[fi] = ";".join(rest) if rest else "-"
+            l = " ".join(g)
+            budget -= 1
+            try:
+                _, c, _ = ck.run_pair([l], "shrink")
+                v = oracle(l, {}, c.get(1, "MISSING"))
+            except Exception:
+                v = None
+            if v is not None and v[0] == cls:
+                items, f = rest, g
+            else:
+                i += 1
+    return " ".join(f)
 
 
 def shrink_H(ck, line, cls):
